@@ -502,7 +502,7 @@ def _impl_raw(case):
     import networkx as nx
     from synkit.CRN.Props.deficiency import DeficiencyAnalyzer
     from synkit.CRN.Props.utils import _species_order
-    Gr = API.raw_graph(case)
+    Gr = API.raw_input(case)
     try:
         a = DeficiencyAnalyzer(Gr, stoich_fn=None, rank_fn=None).compute_summary()
     except ValueError:
@@ -524,7 +524,7 @@ def _coq_raw(case):
     """Encode the raw graph: node identifiers become numbers (only their equality matters), str(node) is kept for the label
     fall-back; int(stoich) is applied here (the model has integer coefficients)."""
     from ..coqrun import cN
-    Gr = API.raw_graph(case)
+    Gr = API.raw_input(case)
     num = {}
     for n in Gr.nodes:
         num[n] = n if isinstance(n, int) and not isinstance(n, bool) and 0 <= n < 10 ** 6 else 10 ** 6 + len(num)
@@ -540,6 +540,8 @@ def _coq_raw(case):
     for u, v, d in Gr.edges(data=True):
         ro = {"reactant": "Reactant", "product": "Product"}.get(d.get("role"))
         arcs.append("(RArc %s %s %s %s)" % (cN(num[u]), cN(num[v]), _copt(ro, str), _copt(int(d["stoich"]) if "stoich" in d else None, cZ)))
+    if case.get("und"):          # the edges as networkx lists them (each once, either orientation); the model orients them
+        return "run19_nodes (as_bipartite_undirected (RG %s %s))" % (clist(nodes), clist(arcs))
     return "run19_nodes (RG %s %s)" % (clist(nodes), clist(arcs))
 
 
@@ -700,7 +702,8 @@ def _oracle_raw(case):
         fails.append(dict(clause="raw-weakly-reversible", detail="weakly_reversible=%r, reference %r" % (o[5][4], wr)))
     if len({tuple(c) for c in o[2]}) != n:
         fails.append(dict(clause="raw-complexes", detail="duplicate complex in %r" % (o[2],)))
-    if case["mut"] == ["none"]:
+    from .C17 import has_catalyst
+    if case["mut"] == ["none"] and not case.get("par") and not (case.get("und") == "graph" and has_catalyst(case)):
         ref = impl(dict(kind="raw-ref", rxns=case["rxns"], iso=case.get("iso", []), view="hyper"))
         if _plain(ref[1:4]) != _plain(o[2:5]):
             fails.append(dict(clause="raw-export", detail="export %r, hypergraph %r" % (_plain(o[2:5]), _plain(ref[1:4]))))
